@@ -1989,3 +1989,25 @@ R.seed("C20.i", "aiocoap/util/linkformat.py",
        "            if value is None:\n                return key\n",
        "            suffix = '' if value is None or not value.strip() else '=\"%s\"' % value\n            if not suffix:\n                return key\n",
        "blank values lose their `=` (decided through a derived local)")
+
+# fourth pass: C20.e decided over everything the link computations run (K.ReceiverFlow), not over the method body
+R.seed("C20.e", F,
+       "            return Link(\n                href=self.href, attr_pairs=attr_pairs, base=self.base, rt=\"core.rd-ep\"\n            )\n",
+       "            return self._host_link(attr_pairs, self.proxy_host)\n\n        def _host_link(self, pairs, base):\n            try:\n                return Link(href=self.href, attr_pairs=pairs, base=base, rt=\"core.rd-ep\")\n            finally:\n                pass\n",
+       "host link built in a helper method that is handed another attribute as base")
+R.seed("C20.e", F,
+       "            return Link(\n                href=self.href, attr_pairs=attr_pairs, base=self.base, rt=\"core.rd-ep\"\n            )\n",
+       "            return Link(self.href, attr_pairs + [[\"base\", self.proxy_host], [\"rt\", \"core.rd-ep\"]])\n",
+       "base given as an attribute pair, but not the registration's base")
+R.seed("C20.e", F,
+       "            result = []\n            for link in self.links.links:\n                href = urljoin(self.base, link.href)\n",
+       "            return LinkFormat(list(map(self._based_link, self.links.links)))\n\n        def _based_link(self, link):\n            self._last_resolved = link\n            result = []\n            for link in [link]:\n                href = urljoin(self.base, link.href)\n",
+       "per-link helper (passed on as a bound method, never called by name) keeps state on the registration")
+R.seed("C20.e", F,
+       "                result.append(Link(href, data))\n            return LinkFormat(result)\n",
+       "                result.append(Link(href, data))\n            self._based = LinkFormat(result)\n            return self._based\n",
+       "based links kept on the registration")
+R.seed("C20.e", F,
+       "        candidates = _paginate(candidates, query)\n\n        result = [c.get_host_link() for c in candidates]\n",
+       "        candidates = _paginate(query=query, candidates=self._previous)\n\n        result = [c.get_host_link() for c in candidates]\n",
+       "endpoint lookup paginates something that does not derive from the enumeration (keyword call)")
